@@ -342,6 +342,14 @@ func buildAscending(tag string, t *Mast, md *symModel, n int) []uint64 {
 		if i > 0 {
 			verifAssume(ks[i-1] < k)
 		}
+		if pat := verifBoundOr("LPAT", -1); pat >= 0 {
+			// restrict this run to one layer pattern: base-3 digits, least significant = first key
+			d := pat
+			for j := 0; j < i; j++ {
+				d /= 3
+			}
+			verifAssume(verifLayer(k) == uint8(d%3))
+		}
 		err := t.Insert(vctx, symKey{k}, v)
 		verifAssert("C01."+tag+".insert.err", err == nil)
 		md.put(k, v)
